@@ -9,6 +9,7 @@ class numpy:
 
         self.ndarray = np.ndarray
         self.ndarray.__getitem__ = signature.classical.getitem()
+        self.generic = np.generic
 
         self.asarray = signature.classical.preserve_shape(np.asarray)
         self.reshape = signature.classical.set_shape(np.reshape)
